@@ -244,3 +244,12 @@ Theorem C12_known_expsw_reversed_refuted :
               /\ http_distance s o <> Some pen_expsw.
 Proof. exact Known_expsw_reversed_refuted. Qed.
 Print Assumptions C12_known_expsw_reversed_refuted.
+
+(* ---- tie to the source: both score tables are those of tcp.rs / http.rs NOW (Gen/Consts.v is regenerated
+   from /repo on every run), for every distance ---- *)
+From HN Require Gen.Consts Proofs.ConstTieMatch.
+Theorem C12_score_tables_match_source :
+  (forall d, HN.Model.Match.tcp_score d = Consts.src_score_lookup Consts.src_tcp_score_arms Consts.src_tcp_max_distance Consts.src_tcp_score_capped Consts.src_tcp_score_default d)
+  /\ (forall d, HN.Model.Match.http_score d = Consts.src_score_lookup Consts.src_http_score_arms Consts.src_http_max_distance Consts.src_http_score_capped Consts.src_http_score_default d).
+Proof. split; [exact ConstTieMatch.tcp_score_tie | exact ConstTieMatch.http_score_tie]. Qed.
+Print Assumptions C12_score_tables_match_source.
